@@ -501,11 +501,17 @@ RT_GO = """// Package rt is the run-time support of the generated MiniGo program
 package rt
 
 var bits []bool
+var overflow bool
 
-func SetBits(b []bool) { bits = b }
+func SetBits(b []bool) { bits = b; overflow = false }
+
+// Overflowed reports whether a condition was asked after the answers were used up (the run is then only one of
+// the executions that continue with "false").
+func Overflowed() bool { return overflow }
 
 func Opaque() bool {
 	if len(bits) == 0 {
+		overflow = true
 		return false
 	}
 	b := bits[0]
